@@ -33,6 +33,10 @@ func VerifC18Roland() {
 	L := zz.Param("L")
 	m := c18value(L)
 	bt := m.SysEx()
+	if zz.Param("other") == 1 {
+		// another message is built before the first one is used: the bytes of the first must not change
+		(Manufacturer{ManufacturerID: 0x41, DeviceID: 1, ModelID: 2, Address: [3]byte{1, 2, 3}, SendingData: []byte{9, 8, 7, 6, 5, 4, 3, 2, 1}}).SysEx()
+	}
 	// layout
 	wantLen := 8 + L + 2
 	if L == 0 {
